@@ -79,7 +79,9 @@ func ZZ_C17() {
 
 	zzrt.Assert(A.r.Start(A.ze.E) == nil, "C17:Start-fails")
 	A.up = true
-	zzrt.Assert(A.r.Start(A.ze.E) != nil, "C17:second-Start-not-rejected")
+	// Start twice is harmless: the second call - here with another engine, as in a second NewEngine(cfg.WithRemote(r))
+	// with the same Remote - is rejected and changes nothing for the engine the remote serves
+	zzrt.Assert(A.r.Start(actor.ZZNewEngine("node:Z").E) != nil, "C17:second-Start-not-rejected")
 	if zzrt.Choose(2) == 1 {
 		zzrt.Assert(B.r.Start(B.ze.E) == nil, "C17:Start-fails")
 		B.up = true
